@@ -17,3 +17,11 @@ func (ctrler *RigoApp) VerifEVM() *evm.EVMCtrler                 { return ctrler
 func (ctrler *RigoApp) VerifMetaDB() *rctypes.MetaDB             { return ctrler.metaDB }
 func (ctrler *RigoApp) VerifNextBlockCtx() *rctypes.BlockContext { return ctrler.nextBlockCtx }
 func (ctrler *RigoApp) VerifLastBlockCtx() *rctypes.BlockContext { return ctrler.lastBlockCtx }
+
+// VerifCloseAll stops the application and closes every store, including those Stop() leaks.
+func (ctrler *RigoApp) VerifCloseAll() {
+	defer func() { _ = recover() }()
+	_ = ctrler.Stop()
+	ctrler.stakeCtrler.VerifCloseLeaked()
+	ctrler.govCtrler.VerifCloseLeaked()
+}
